@@ -203,7 +203,7 @@ func NewMachine(P *Program) (*Machine, error) {
 		}
 	}
 	// run package initialisers concretely
-	m.path = &pathState{pcSet: map[*Term]bool{}, reached: map[string]int{}, knownSeen: map[string]int{}, expect: map[Outcome]bool{}, assumptions: map[string]bool{}}
+	m.path = &pathState{pcSet: map[*Term]bool{}, reached: map[string]int{}, knownSeen: map[string]int{}, expect: map[Outcome]bool{}, assumptions: map[string]bool{}, vals: map[*Term]*Term{}}
 	main := &goroutine{id: 0, started: true, isMain: true, resume: make(chan resumeMsg, 1)}
 	m.gor = []*goroutine{main}
 	m.cur = main
